@@ -1877,4 +1877,569 @@ theorem strTok_sim {a b : St} (h : Before xA xB PR a b) :
 
 end sim7
 
+/-! ### raw strings -/
+
+theorem rawLoop_false_step (rest : List Rune) (ch : Int) (p : PState) :
+    rawLoop false rest ch p =
+      if ch = 172 then rawLoop true (next rest p).2.1 (next rest p).1 (next rest p).2.2
+      else if ch < 0 then (0, rest, Scan.err p)
+      else rawLoop false (next rest p).2.1 (next rest p).1 (next rest p).2.2 := by
+  cases rest with
+  | nil =>
+    have e1 : ∀ q, rawLoop true [] EOF q = (EOF, [], q) := by intro q; rw [rawLoop]; rfl
+    have e2 : ∀ q, rawLoop false [] EOF q = (0, [], Scan.err q) := by intro q; rw [rawLoop]; rfl
+    have e : next [] p = (EOF, [], (next [] p).2.2) := rfl
+    rw [rawLoop]
+    by_cases h1 : ch = 172
+    · rw [if_pos h1, if_pos h1, e, e1]
+    · rw [if_neg h1, if_neg h1]
+      by_cases h2 : ch < 0
+      · rw [if_pos h2, if_pos h2]
+      · rw [if_neg h2, if_neg h2, e, e2]
+  | cons r rs =>
+    rw [next_cons_eq]
+    conv => lhs; unfold rawLoop
+    simp only [next_cons_eq]
+
+theorem rawLoop_true_step (rest : List Rune) (ch : Int) (p : PState) :
+    rawLoop true rest ch p =
+      if ch ≠ 172 then (ch, rest, p)
+      else rawLoop false (next rest p).2.1 (next rest p).1 (next rest p).2.2 := by
+  cases rest with
+  | nil =>
+    have e2 : ∀ q, rawLoop false [] EOF q = (0, [], Scan.err q) := by intro q; rw [rawLoop]; rfl
+    have e : next [] p = (EOF, [], (next [] p).2.2) := rfl
+    rw [rawLoop]
+    by_cases h1 : ch ≠ 172
+    · rw [if_pos h1, if_pos h1]
+    · rw [if_neg h1, if_neg h1, e, e2]
+  | cons r rs =>
+    rw [next_cons_eq]
+    conv => lhs; unfold rawLoop
+    simp only [next_cons_eq]
+
+/-- the runes the raw-string loop may still read -/
+def rawMeasure (s : St) : Nat := s.2.1.length + (if s.1 < 0 then 0 else 1)
+
+theorem rawMeasure_next (s : St) (h : 0 ≤ s.1) : rawMeasure (next s.2.1 s.2.2) < rawMeasure s := by
+  obtain ⟨c, r, q⟩ := s
+  dsimp only at h
+  have hc : ¬ c < 0 := by omega
+  cases r with
+  | nil =>
+    have e : next [] q = (EOF, [], (next [] q).2.2) := rfl
+    rw [e]; simp [rawMeasure, hc]
+  | cons x xs =>
+    rw [next_cons_eq]
+    simp only [rawMeasure, hc, ↓reduceIte, List.length_cons]
+    split <;> omega
+
+section sim8
+variable {xA xB : List Rune} {PR PRat : PState → PState → Prop} (C : Ctx xA xB PR PRat)
+include C
+
+theorem rawLoop_sim : ∀ n (flag : Bool) (ca : Int) (ra : List Rune) (pa : PState) (cb : Int) (rb : List Rune)
+    (pb : PState), rawMeasure (ca, ra, pa) ≤ n → Rel xA xB PR PRat (ca, ra, pa) (cb, rb, pb) →
+    Rel xA xB PR PRat (rawLoop flag ra ca pa) (rawLoop flag rb cb pb) := by
+  intro n
+  induction n with
+  | zero =>
+    intro flag ca ra pa cb rb pb hm h
+    have hneg : ca < 0 := by
+      unfold rawMeasure at hm; dsimp only at hm; split at hm
+      · assumption
+      · omega
+    cases h with
+    | inr hd => exact Or.inr (rawLoop_s (dead_srel xA xB) _ _ _ _ hd)
+    | inl hl =>
+      have h172 : ca ≠ 172 := by omega
+      rcases hl with hb | ha
+      · have hc : ca = cb := hb.1
+        subst hc
+        cases flag with
+        | false =>
+          rw [rawLoop_false_step ra, rawLoop_false_step rb, if_neg h172, if_neg h172, if_pos hneg, if_pos hneg]
+          exact Or.inl (Or.inl ⟨rfl, C.pr_err _ _ hb.2.1, hb.2.2⟩)
+        | true =>
+          rw [rawLoop_true_step ra, rawLoop_true_step rb, if_pos h172, if_pos h172]
+          exact Or.inl (Or.inl hb)
+      · cases flag with
+        | false =>
+          rw [rawLoop_false_step ra, if_neg h172, if_pos hneg]
+          exact Or.inr ⟨ha.1, Or.inl (err_errs_ne _)⟩
+        | true =>
+          have hsB := at_stopB C ha
+          rw [rawLoop_true_step ra, rawLoop_true_step rb, if_pos h172, if_pos (stop_ne hsB).2.2.2.2.2.2.2.1]
+          exact Or.inl (Or.inr ha)
+  | succ n ih =>
+    intro flag ca ra pa cb rb pb hm h
+    cases h with
+    | inr hd => exact Or.inr (rawLoop_s (dead_srel xA xB) _ _ _ _ hd)
+    | inl hl =>
+      rcases hl with hb | ha
+      · have hc : ca = cb := hb.1
+        subst hc
+        have hl1 := before_next C hb
+        dsimp only at hl1
+        have hmn : 0 ≤ ca → rawMeasure (next ra pa) ≤ n := by
+          intro h0
+          have := rawMeasure_next (ca, ra, pa) h0
+          dsimp only at this
+          omega
+        cases flag with
+        | false =>
+          rw [rawLoop_false_step ra, rawLoop_false_step rb]
+          by_cases h1 : ca = 172
+          · rw [if_pos h1, if_pos h1]
+            exact ih true _ _ _ _ _ _ (hmn (by omega)) (Or.inl hl1)
+          rw [if_neg h1, if_neg h1]
+          by_cases h2 : ca < 0
+          · rw [if_pos h2, if_pos h2]
+            exact Or.inl (Or.inl ⟨rfl, C.pr_err _ _ hb.2.1, hb.2.2⟩)
+          · rw [if_neg h2, if_neg h2]
+            exact ih false _ _ _ _ _ _ (hmn (by omega)) (Or.inl hl1)
+        | true =>
+          rw [rawLoop_true_step ra, rawLoop_true_step rb]
+          by_cases h1 : ca ≠ 172
+          · rw [if_pos h1, if_pos h1]; exact Or.inl (Or.inl hb)
+          · rw [if_neg h1, if_neg h1]
+            exact ih false _ _ _ _ _ _ (hmn (by omega)) (Or.inl hl1)
+      · have hsB := at_stopB C ha
+        have hdead : 0 ≤ ca → Dead xA xB (next ra pa) := by
+          intro h0
+          refine at_next_dead ha ?_
+          intro e
+          have := ha.2.1
+          rw [e] at this
+          have e2 : ca = -1 := this
+          omega
+        cases flag with
+        | false =>
+          refine Or.inr ?_
+          rw [rawLoop_false_step ra]
+          by_cases h1 : ca = 172
+          · rw [if_pos h1]; exact rawLoop_s (dead_srel xA xB) _ _ _ _ (hdead (by omega))
+          rw [if_neg h1]
+          by_cases h2 : ca < 0
+          · rw [if_pos h2]; exact ⟨ha.1, Or.inl (err_errs_ne _)⟩
+          · rw [if_neg h2]; exact rawLoop_s (dead_srel xA xB) _ _ _ _ (hdead (by omega))
+        | true =>
+          rw [rawLoop_true_step ra, rawLoop_true_step rb, if_pos (stop_ne hsB).2.2.2.2.2.2.2.1]
+          by_cases h1 : ca ≠ 172
+          · rw [if_pos h1]; exact Or.inl (Or.inr ha)
+          · rw [if_neg h1]
+            exact Or.inr (rawLoop_s (dead_srel xA xB) _ _ _ _ (hdead (by omega)))
+
+theorem scanRawString_sim {a b : St} (h : Before xA xB PR a b) :
+    Rel xA xB PR PRat (scanRawString a.2.1 a.2.2) (scanRawString b.2.1 b.2.2) := by
+  unfold scanRawString
+  have hl := before_next C h
+  generalize next a.2.1 a.2.2 = x at hl ⊢
+  generalize next b.2.1 b.2.2 = y at hl ⊢
+  obtain ⟨c, r, q⟩ := x
+  obtain ⟨c', r', q'⟩ := y
+  exact rawLoop_sim C (rawMeasure (c, r, q)) false c r q c' r' q' (Nat.le_refl _) (Or.inl hl)
+
+end sim8
+
+/-! ### a token read by a run that has already crossed into `xA` ends beyond its first rune -/
+
+theorem scanIdentifier_pop {P : St → Prop} (hP : SRel (fun a b => P a → P b)) (rest : List Rune) (p : PState)
+    (h : P (next rest p)) : P (scanIdentifier rest p) := by
+  unfold scanIdentifier
+  generalize next rest p = x at h ⊢
+  obtain ⟨c, r, q⟩ := x
+  exact identLoop_s hP _ _ _ h
+
+theorem scanString_pop {P : St → Prop} (hP : SRel (fun a b => P a → P b)) (rest : List Rune) (p : PState)
+    (h : P (next rest p)) : P (scanString rest p) := by
+  unfold scanString
+  generalize next rest p = x at h ⊢
+  obtain ⟨c, r, q⟩ := x
+  exact stringLoop_s hP _ _ _ _ h
+
+theorem scanRawString_pop {P : St → Prop} (hP : SRel (fun a b => P a → P b)) (rest : List Rune) (p : PState)
+    (h : P (next rest p)) : P (scanRawString rest p) := by
+  unfold scanRawString
+  generalize next rest p = x at h ⊢
+  obtain ⟨c, r, q⟩ := x
+  exact rawLoop_s hP _ _ _ _ h
+
+section later
+variable {xA xB : List Rune}
+
+theorem later_next_dead (hs : ¬ Same xA xB) (hx : xA ≠ []) (_ch : Int) (rest : List Rune) (p : PState)
+    (h : rest.length ≤ xA.tail.length) : Dead xA xB (next rest p) := by
+  refine ⟨hs, ?_⟩
+  cases rest with
+  | nil => exact Or.inr (Or.inr ⟨hx, rfl, rfl⟩)
+  | cons r rs =>
+    rw [next_cons_eq]
+    simp only [List.length_cons] at h
+    exact Or.inr (Or.inl (by dsimp only; omega))
+
+theorem scan_later (hs : ¬ Same xA xB) (hx : xA ≠ []) : ∀ fuel rest ch p,
+    rest.length ≤ xA.tail.length → (scan fuel rest ch p).1 ≠ none → Dead xA xB (scan fuel rest ch p).2 := by
+  intro fuel
+  induction fuel with
+  | zero => intro rest ch p _ h; exact absurd rfl h
+  | succ n ih =>
+    intro rest ch p hlen
+    unfold scan
+    have hw := skipWhite_s len_srel rest ch p
+    generalize skipWhite rest ch p = sw at hw ⊢
+    obtain ⟨ch1, rest1, p1⟩ := sw
+    dsimp only at hw ⊢
+    have hl1 : rest1.length ≤ xA.tail.length := Nat.le_trans hw hlen
+    have hdn := later_next_dead hs hx ch1 rest1 p1 hl1
+    have hdn0 := hdn
+    have hlen2 := Scanner.next_length rest1 p1
+    generalize next rest1 p1 = nx at hdn hlen2 ⊢
+    obtain ⟨c, r, q⟩ := nx
+    dsimp only at hlen2 ⊢
+    have D := dead_srel xA xB
+    by_cases c1 : isIdentRune ch1 0 = true
+    · rw [if_pos c1]; intro _
+      exact scanIdentifier_pop D _ _ hdn0
+    rw [if_neg c1]
+    by_cases c2 : isDecimal ch1 = true
+    · rw [if_pos c2]; intro _
+      exact scanNumber_first_pop D [] rest1 ch1 p1 false false c2 hdn0
+    rw [if_neg c2]
+    by_cases c3 : ch1 = 45
+    · rw [if_pos c3]
+      by_cases c31 : isIdentRune c 0 = true
+      · rw [if_pos c31]; intro _; exact scanIdentifier_s D _ _ _ hdn
+      rw [if_neg c31]
+      by_cases c32 : isDecimal c = true
+      · rw [if_pos c32]; intro _; exact scanNumber_s D [45] r c q false true hdn
+      rw [if_neg c32]; intro _; exact hdn
+    rw [if_neg c3]
+    by_cases c4 : ch1 < 0
+    · rw [if_pos c4]; intro h; exact absurd rfl h
+    rw [if_neg c4]
+    by_cases c5 : ch1 = 34
+    · rw [if_pos c5]; intro _
+      have h1 : Dead xA xB (scanString rest1 p1) := scanString_pop D _ _ hdn0
+      generalize scanString rest1 p1 = ss at h1 ⊢
+      obtain ⟨c', r', q'⟩ := ss
+      exact D.next _ _ _ h1
+    rw [if_neg c5]
+    by_cases c6 : ch1 = 58
+    · rw [if_pos c6]; intro _; exact scanIdentifier_pop D _ _ hdn0
+    rw [if_neg c6]
+    by_cases c7 : ch1 = 46
+    · rw [if_pos c7]
+      by_cases c71 : isDecimal c = true
+      · rw [if_pos c71]; intro _; exact scanNumber_s D [46] r c q true false hdn
+      rw [if_neg c71]; intro _; exact hdn
+    rw [if_neg c7]
+    by_cases c8 : ch1 = 59
+    · rw [if_pos c8]
+      have h1 := scanComment_s len_srel r c q
+      generalize scanComment r c q = sc at h1 ⊢
+      obtain ⟨c', r', q'⟩ := sc
+      dsimp only at h1 ⊢
+      exact ih r' c' q' (by omega)
+    rw [if_neg c8]
+    by_cases c9 : ch1 = 172
+    · rw [if_pos c9]; intro _
+      exact scanRawString_pop D _ _ hdn0
+    rw [if_neg c9]
+    by_cases c10 : ch1 = 126
+    · rw [if_pos c10]
+      by_cases c101 : c = 64
+      · rw [if_pos c101]; intro _; exact D.next _ _ _ hdn
+      rw [if_neg c101]; intro _; exact hdn
+    rw [if_neg c10]
+    by_cases c11 : ch1 = 35
+    · rw [if_pos c11]
+      by_cases c111 : c = 123
+      · rw [if_pos c111]; intro _; exact D.next _ _ _ hdn
+      rw [if_neg c111]; intro _; exact hdn
+    rw [if_neg c11]
+    intro _; exact hdn
+
+end later
+
+/-! ### fuel of `scan` (the `goto redo` after a comment) -/
+
+theorem scan_at_eof (f : Nat) (p : PState) : scan f [] EOF p = (none, (EOF, [], p)) := by
+  cases f with
+  | zero => rfl
+  | succ f => rw [scan, skipWhite_stop _ _ _ (by decide)]; rfl
+
+theorem scanComment_nil_eof (q : PState) : ∃ q', scanComment [] EOF q = (EOF, [], q') := by
+  refine ⟨(next [] q).2.2, ?_⟩
+  unfold scanComment
+  rw [if_pos (by decide)]
+  show commentLoop [] EOF _ = _
+  rw [commentLoop, if_neg (by decide)]
+  rfl
+
+/-- the part of `scan` that does not depend on the fuel: everything but the recursion after a comment.
+    `none` = "a comment was skipped, scan again from this state" -/
+theorem scan_succ_comment (f : Nat) (rest : List Rune) (ch : Int) (p : PState)
+    (h : (skipWhite rest ch p).1 = 59) :
+    scan (f + 1) rest ch p =
+      scan f (scanComment (next (skipWhite rest ch p).2.1 (skipWhite rest ch p).2.2).2.1
+          (next (skipWhite rest ch p).2.1 (skipWhite rest ch p).2.2).1
+          (next (skipWhite rest ch p).2.1 (skipWhite rest ch p).2.2).2.2).2.1
+        (scanComment (next (skipWhite rest ch p).2.1 (skipWhite rest ch p).2.2).2.1
+          (next (skipWhite rest ch p).2.1 (skipWhite rest ch p).2.2).1
+          (next (skipWhite rest ch p).2.1 (skipWhite rest ch p).2.2).2.2).1
+        (scanComment (next (skipWhite rest ch p).2.1 (skipWhite rest ch p).2.2).2.1
+          (next (skipWhite rest ch p).2.1 (skipWhite rest ch p).2.2).1
+          (next (skipWhite rest ch p).2.1 (skipWhite rest ch p).2.2).2.2).2.2 := by
+  rw [scan]
+  generalize skipWhite rest ch p = sw at h ⊢
+  obtain ⟨ch1, rest1, p1⟩ := sw
+  dsimp only at h ⊢
+  subst h
+  rw [if_neg (by decide), if_neg (by decide), if_neg (by decide), if_neg (by decide), if_neg (by decide),
+    if_neg (by decide), if_neg (by decide), if_pos rfl]
+
+theorem scan_succ_other (f g : Nat) (rest : List Rune) (ch : Int) (p : PState)
+    (h : (skipWhite rest ch p).1 ≠ 59) : scan (f + 1) rest ch p = scan (g + 1) rest ch p := by
+  rw [scan, scan]
+  generalize skipWhite rest ch p = sw at h ⊢
+  obtain ⟨ch1, rest1, p1⟩ := sw
+  dsimp only at h ⊢
+  simp only [if_neg h]
+
+theorem scan_fuel : ∀ f rest ch p, rest.length + 2 ≤ f → scan (f + 1) rest ch p = scan f rest ch p := by
+  intro f
+  induction f with
+  | zero => intro rest ch p h; omega
+  | succ f ih =>
+    intro rest ch p h
+    by_cases h59 : (skipWhite rest ch p).1 = 59
+    · rw [scan_succ_comment (f + 1) rest ch p h59, scan_succ_comment f rest ch p h59]
+      have hw := skipWhite_s len_srel rest ch p
+      generalize skipWhite rest ch p = sw at hw ⊢
+      obtain ⟨ch1, rest1, p1⟩ := sw
+      dsimp only at hw ⊢
+      cases rest1 with
+      | nil =>
+        have e : next [] p1 = (EOF, [], (next [] p1).2.2) := rfl
+        rw [e]
+        obtain ⟨q', hq⟩ := scanComment_nil_eof (next [] p1).2.2
+        dsimp only
+        rw [hq]
+        dsimp only
+        rw [scan_at_eof, scan_at_eof]
+      | cons r rs =>
+        rw [next_cons_eq]
+        dsimp only
+        have h1 := scanComment_s len_srel rs (Int.ofNat r.ch) (step r p1)
+        generalize scanComment rs (Int.ofNat r.ch) (step r p1) = sc at h1 ⊢
+        obtain ⟨c', r', q'⟩ := sc
+        dsimp only at h1 ⊢
+        simp only [List.length_cons] at hw
+        exact ih r' c' q' (by omega)
+    · exact scan_succ_other _ _ rest ch p h59
+
+theorem scan_fuel_ge (rest : List Rune) (ch : Int) (p : PState) (f : Nat) (h : rest.length + 2 ≤ f) : ∀ k,
+    scan (f + k) rest ch p = scan f rest ch p := by
+  intro k
+  induction k with
+  | zero => rfl
+  | succ k ih => rw [← Nat.add_assoc, scan_fuel (f + k) rest ch p (by omega), ih]
+
+/-! ### `scan` -/
+
+/-- `Scan` after the white space has been skipped; `rec` = what to do after a comment -/
+def dispatch (rec : List Rune → Int → PState → Option (Kind × List Nat) × St) (ch : Int) (rest : List Rune)
+    (p : PState) : Option (Kind × List Nat) × St :=
+  let fin (k : Kind) (ch0 : Int) (restStart : List Rune) (s : St) : Option (Kind × List Nat) × St :=
+    (some (k, consumed ch0 restStart s.2.1 s.1), s)
+  if isIdentRune ch 0 then
+    fin .ident ch rest (scanIdentifier rest p)
+  else if isDecimal ch then
+    let (k, s) := scanNumber [] rest ch p false false
+    fin k ch rest s
+  else if ch = 45 then
+    let (c, r, q) := next rest p
+    if isIdentRune c 0 then fin .ident ch rest (scanIdentifier r q)
+    else if isDecimal c then
+      let (k, s) := scanNumber [45] r c q false true
+      fin k ch rest s
+    else fin .ident ch rest (c, r, q)
+  else if ch < 0 then (none, (ch, rest, p))
+  else if ch = 34 then
+    let (_, r, q) := scanString rest p
+    fin .string ch rest (next r q)
+  else if ch = 58 then fin .keyword ch rest (scanIdentifier rest p)
+  else if ch = 46 then
+    let (c, r, q) := next rest p
+    if isDecimal c then
+      let (k, s) := scanNumber [46] r c q true false
+      fin k ch rest s
+    else fin (.char 46) ch rest (c, r, q)
+  else if ch = 59 then
+    let (c, r, q) := next rest p
+    let (c, r, q) := scanComment r c q
+    rec r c q
+  else if ch = 172 then fin .rawString ch rest (scanRawString rest p)
+  else if ch = 126 then
+    let (c, r, q) := next rest p
+    if c = 64 then fin .ident ch rest (next r q) else fin (.char 126) ch rest (c, r, q)
+  else if ch = 35 then
+    let (c, r, q) := next rest p
+    if c = 123 then fin .ident ch rest (next r q) else fin (.char 35) ch rest (c, r, q)
+  else fin (.char ch.toNat) ch rest (next rest p)
+
+theorem scan_succ (f : Nat) (rest : List Rune) (ch : Int) (p : PState) :
+    scan (f + 1) rest ch p =
+      dispatch (scan f) (skipWhite rest ch p).1 (skipWhite rest ch p).2.1 (skipWhite rest ch p).2.2 := by
+  rw [scan]
+  generalize skipWhite rest ch p = sw
+  obtain ⟨ch1, rest1, p1⟩ := sw
+  unfold dispatch
+  dsimp only
+
+theorem skipWhite_idem (rest : List Rune) (ch : Int) (p : PState) :
+    skipWhite (skipWhite rest ch p).2.1 (skipWhite rest ch p).1 (skipWhite rest ch p).2.2 = skipWhite rest ch p := by
+  induction rest generalizing ch p with
+  | nil =>
+    by_cases h : isWhite ch = true
+    · have e : skipWhite [] ch p = (EOF, [], (next [] p).2.2) := by rw [skipWhite, if_pos h]; rfl
+      rw [e]; exact skipWhite_stop _ _ _ (show isWhite EOF = false by decide)
+    · have h' : isWhite ch = false := by simpa using h
+      rw [skipWhite_stop _ _ _ h', skipWhite_stop _ _ _ h']
+  | cons r rs ih =>
+    by_cases h : isWhite ch = true
+    · rw [skipWhite_cons _ _ _ _ h]; exact ih _ _
+    · have h' : isWhite ch = false := by simpa using h
+      rw [skipWhite_stop _ _ _ h', skipWhite_stop _ _ _ h']
+
+theorem scan_skip (f : Nat) (rest : List Rune) (ch : Int) (p : PState) :
+    scan (f + 1) rest ch p =
+      scan (f + 1) (skipWhite rest ch p).2.1 (skipWhite rest ch p).1 (skipWhite rest ch p).2.2 := by
+  rw [scan_succ, scan_succ (rest := (skipWhite rest ch p).2.1), skipWhite_idem]
+
+/-- run A has read the first rune after the common part (or more) while white space / a comment was skipped -/
+def Crossed (xA xB : List Rune) (a : St) : Prop :=
+  ¬ Same xA xB ∧ ((xA ≠ [] ∧ a.2.1.length ≤ xA.tail.length) ∨ (xA = [] ∧ a.2.1 = [] ∧ a.1 = EOF))
+
+section crossed
+variable {xA xB : List Rune}
+
+theorem crossed_of_at {PRat : PState → PState → Prop} {a b : St} (h : At xA xB PRat a b) : Crossed xA xB a := by
+  obtain ⟨hs, h1, h2, _⟩ := h
+  refine ⟨hs, ?_⟩
+  by_cases hx : xA = []
+  · subst hx; exact Or.inr ⟨rfl, h2, h1⟩
+  · exact Or.inl ⟨hx, by rw [h2]; exact Nat.le_refl _⟩
+
+theorem crossed_loopWhile (cond : Int → Bool) (hE : cond EOF = false) {a : St} (h : Crossed xA xB a) :
+    Crossed xA xB (loopWhile cond a.2.1 a.1 a.2.2) := by
+  obtain ⟨hs, h | ⟨hx, h1, h2⟩⟩ := h
+  · exact ⟨hs, Or.inl ⟨h.1, Nat.le_trans (loopWhile_s len_srel cond _ _ _) h.2⟩⟩
+  · obtain ⟨c, r, q⟩ := a
+    dsimp only at h1 h2 ⊢
+    subst h1 h2
+    rw [loopWhile_stop _ _ _ _ hE]
+    exact ⟨hs, Or.inr ⟨hx, rfl, rfl⟩⟩
+
+theorem crossed_next {a : St} (h : Crossed xA xB a) : Crossed xA xB (next a.2.1 a.2.2) := by
+  obtain ⟨hs, h | ⟨hx, h1, h2⟩⟩ := h
+  · exact ⟨hs, Or.inl ⟨h.1, Nat.le_trans (Scanner.next_length _ _) h.2⟩⟩
+  · rw [h1]; exact ⟨hs, Or.inr ⟨hx, rfl, rfl⟩⟩
+
+theorem crossed_scanComment {a : St} (h : Crossed xA xB a) : Crossed xA xB (scanComment a.2.1 a.1 a.2.2) := by
+  obtain ⟨hs, h | ⟨hx, h1, h2⟩⟩ := h
+  · exact ⟨hs, Or.inl ⟨h.1, Nat.le_trans (scanComment_s len_srel _ _ _) h.2⟩⟩
+  · obtain ⟨c, r, q⟩ := a
+    dsimp only at h1 h2 ⊢
+    subst h1 h2
+    obtain ⟨q', hq⟩ := scanComment_nil_eof q
+    rw [hq]
+    exact ⟨hs, Or.inr ⟨hx, rfl, rfl⟩⟩
+
+/-- after crossing, `Scan` yields no token, or run A ends dead -/
+theorem crossed_scan {a : St} (h : Crossed xA xB a) (f : Nat) :
+    (scan f a.2.1 a.1 a.2.2).1 = none ∨ Dead xA xB (scan f a.2.1 a.1 a.2.2).2 := by
+  obtain ⟨hs, h | ⟨hx, h1, h2⟩⟩ := h
+  · by_cases hn : (scan f a.2.1 a.1 a.2.2).1 = none
+    · exact Or.inl hn
+    · exact Or.inr (scan_later hs h.1 f _ _ _ h.2 hn)
+  · left; rw [h1, h2, scan_at_eof]
+
+end crossed
+
+section sim9
+variable {xA xB : List Rune} {PR PRat : PState → PState → Prop} (C : Ctx xA xB PR PRat)
+include C
+
+/-- a loop that skips (white space, a comment body): lockstep inside the common part, else run A crosses -/
+theorem loopWhile_gap (cond : Int → Bool) (hE : cond EOF = false) :
+    ∀ ra ca pa rb cb pb, Before xA xB PR (ca, ra, pa) (cb, rb, pb) →
+      Before xA xB PR (loopWhile cond ra ca pa) (loopWhile cond rb cb pb) ∨
+      Crossed xA xB (loopWhile cond ra ca pa) := by
+  intro ra
+  induction ra with
+  | nil =>
+    intro ca pa rb cb pb hb
+    have hc : ca = cb := hb.1
+    subst hc
+    cases hcond : cond ca with
+    | false => rw [loopWhile_stop _ _ _ _ hcond, loopWhile_stop _ _ _ _ hcond]; exact Or.inl hb
+    | true =>
+      rw [loopWhile_step cond hE rb ca pb hcond, loopWhile_step cond hE [] ca pa hcond]
+      have hl := before_next C hb
+      dsimp only at hl
+      rcases hl with hb' | ha'
+      · have e1 : (next [] pa).1 = EOF := rfl
+        have e2 : (next rb pb).1 = EOF := by rw [← hb'.1]; rfl
+        rw [loopWhile_stop cond _ _ _ (by rw [e1]; exact hE), loopWhile_stop cond _ _ _ (by rw [e2]; exact hE)]
+        exact Or.inl hb'
+      · exact Or.inr (crossed_loopWhile cond hE (crossed_of_at ha'))
+  | cons r rs ih =>
+    intro ca pa rb cb pb hb
+    have hc : ca = cb := hb.1
+    subst hc
+    cases hcond : cond ca with
+    | false => rw [loopWhile_stop _ _ _ _ hcond, loopWhile_stop _ _ _ _ hcond]; exact Or.inl hb
+    | true =>
+      rw [loopWhile_step cond hE rb ca pb hcond, loopWhile_step cond hE (r :: rs) ca pa hcond]
+      have hl := before_next C hb
+      dsimp only at hl
+      rcases hl with hb' | ha'
+      · rw [next_cons_eq] at hb' ⊢
+        exact ih _ _ _ _ _ hb'
+      · exact Or.inr (crossed_loopWhile cond hE (crossed_of_at ha'))
+
+theorem skipWhite_gap {a b : St} (h : Before xA xB PR a b) :
+    Before xA xB PR (skipWhite a.2.1 a.1 a.2.2) (skipWhite b.2.1 b.1 b.2.2) ∨
+      Crossed xA xB (skipWhite a.2.1 a.1 a.2.2) := by
+  rw [skipWhite_eq, skipWhite_eq]
+  exact loopWhile_gap C isWhite (by decide) _ _ _ _ _ _ h
+
+/-- the comment behind a `;` (the states are those after the `next` that read the rune behind the `;`) -/
+theorem scanComment_gap {a b : St} (h : Live xA xB PR PRat a b) :
+    Before xA xB PR (scanComment a.2.1 a.1 a.2.2) (scanComment b.2.1 b.1 b.2.2) ∨
+      Crossed xA xB (scanComment a.2.1 a.1 a.2.2) := by
+  rcases h with hb | ha
+  · have hc : a.1 = b.1 := hb.1
+    unfold scanComment
+    rw [← hc]
+    by_cases h10 : a.1 ≠ 10
+    · rw [if_pos h10, if_pos h10]
+      have hl := before_next C hb
+      generalize next a.2.1 a.2.2 = x at hl ⊢
+      generalize next b.2.1 b.2.2 = y at hl ⊢
+      obtain ⟨c, r, q⟩ := x
+      obtain ⟨c', r', q'⟩ := y
+      dsimp only
+      rw [commentLoop_eq, commentLoop_eq]
+      rcases hl with hb' | ha'
+      · exact loopWhile_gap C _ (by decide) _ _ _ _ _ _ hb'
+      · exact Or.inr (crossed_loopWhile _ (by decide) (crossed_of_at ha'))
+    · rw [if_neg h10, if_neg h10]
+      exact Or.inl ⟨rfl, hb.2.1, hb.2.2⟩
+  · exact Or.inr (crossed_scanComment (crossed_of_at ha))
+
+end sim9
+
 end LispModel.Proofs.LayoutFull
